@@ -1,6 +1,8 @@
 package gosym
 
 import (
+	"go/types"
+
 	"golang.org/x/tools/go/ssa"
 )
 
@@ -80,6 +82,57 @@ func init() {
 				}
 			}
 			return &StrV{}
+		})
+	})
+}
+
+func init() {
+	extraIntrinsics = append(extraIntrinsics, func(w *World) {
+		// hash/crc32 streaming digest: accumulate the bytes written; Sum32 is the
+		// same uninterpreted function ChecksumIEEE uses, so a two-part Write and a
+		// one-shot checksum of the concatenation agree.
+		w.reg("hash/crc32.NewIEEE", func(e *Exec, fn *ssa.Function, a []Value) Value {
+			t := e.lookupType("hash/crc32", "digest")
+			l := e.newLoc(t)
+			if e.crcBuf == nil {
+				e.crcBuf = map[*Loc][]*Term{}
+			}
+			e.crcBuf[l] = []*Term{}
+			return IfaceV{T: types.NewPointer(t), V: Ptr{L: l}}
+		})
+		w.reg("hash/crc32.New", w.intr["hash/crc32.NewIEEE"])
+		w.reg("(*hash/crc32.digest).Write", func(e *Exec, fn *ssa.Function, a []Value) Value {
+			l := a[0].(Ptr).L
+			bs := e.sliceBytes(a[1].(SliceV))
+			e.crcBuf[l] = append(e.crcBuf[l], bs...)
+			return TupleV{e.mkInt(len(bs)), e.zero(e.errT())}
+		})
+		w.reg("(*hash/crc32.digest).Sum32", func(e *Exec, fn *ssa.Function, a []Value) Value {
+			return e.ufBytes("crc32", e.crcBuf[a[0].(Ptr).L], 32)
+		})
+		w.reg("(*hash/crc32.digest).Reset", func(e *Exec, fn *ssa.Function, a []Value) Value {
+			e.crcBuf[a[0].(Ptr).L] = []*Term{}
+			return nil
+		})
+	})
+}
+
+func init() {
+	extraIntrinsics = append(extraIntrinsics, func(w *World) {
+		V := VerifPkgPath + "."
+		w.reg(V+"LargeAllocAs", func(e *Exec, fn *ssa.Function, a []Value) Value {
+			e.largeAlloc = e.argInt(a[0], "LargeAllocAs")
+			return nil
+		})
+		// ClockFixed(ns): time.Now() returns this constant instant from now on (ns < 0: back to symbolic)
+		w.reg(V+"ClockFixed", func(e *Exec, fn *ssa.Function, a []Value) Value {
+			ns := e.argInt(a[0], "ClockFixed")
+			if ns < 0 {
+				e.clockFixed = nil
+			} else {
+				e.clockFixed = e.tb.Inti(int64(ns))
+			}
+			return nil
 		})
 	})
 }
